@@ -265,6 +265,31 @@ def run(db: DB, rep: Report) -> None:
                   "the position variables of time ranks when slip is on, so the stamp reads names that are "
                   "never bound (or stale ones from an earlier Einsum)" % sorted(m))
 
+    # ---- D12: the dynamic name of a stamped rank exists whenever it is handed out ------
+    rep.rule("D12", "Partitioning.get_dyn_rank returns a derived rank name only when that rank exists", 1)
+    gd = db.func("teaal.ir.partitioning.Partitioning.get_dyn_rank")
+    rp = gd.call_params[0]
+    n_d12 = 0
+    for r in [n for n in walk_no_nested(gd.node) if isinstance(n, ast.Return) and n.value is not None]:
+        v = paths.resolve_flow(r.value, r, gd.node, depth=2)
+        if norm(v) == rp:
+            continue                     # the rank itself: bound by its own loop
+        n_d12 += 1
+        vt = norm(v)
+        tests = [(paths.inlined_text(a, gd.node), p_) for t, pol in paths.guards(r, stop=gd.node)
+                 for a, p_ in paths.conjuncts(t, pol)]
+        exists = any(p_ and vt in t_ and (" in " in t_) and "not in" not in t_ for t_, p_ in tests)
+        graphy = bool(tests) and all(("RankNode" in t_ or "self.graph" in t_ or "is_flattened" in t_)
+                                     for t_, _ in tests)
+        rep.check("D12", exists, db.loc(r), gd.short, "dyn-rank:" + vt[:40],
+                  "%s is returned only under a membership test of that very name" % vt[:40],
+                  "Partitioning.get_dyn_rank hands out %s under %s, which does not establish that a rank of "
+                  "that name exists (a rank whose only successor is a flattening has none): the access "
+                  "point of the display reads a variable no loop binds" %
+                  (vt[:40], [("" if p_ else "not ") + t_[:50] for t_, p_ in tests]), decided=graphy)
+    if n_d12 < 1:
+        raise AnalysisError("Partitioning.get_dyn_rank no longer derives a rank name")
+
     # ---- D11: coordinates that name a loop variable come from get_iter_ranks ---------
     rep.rule("D11", "a stamp coordinate that names a loop's variable is derived through get_iter_ranks", 1)
     rc = C_.methods.get("__rel_coord")
@@ -507,6 +532,9 @@ def mutants(db: DB):
     gr, cv, eq, hf = ("teaal/trans/graphics.py", "teaal/trans/canvas.py", "teaal/trans/equation.py",
                       "teaal/trans/hifiber.py")
     return [
+        M("dynamic rank name handed out whenever the rank has successors", "teaal/ir/partitioning.py",
+          "        if RankNode(rank + \"0\") in self.graph.nodes:\n            return rank + \"0\"",
+          "        if list(self.graph.successors(RankNode(rank))):\n            return rank + \"0\"", "D12"),
         M("header drops metrics conjunct", gr,
           "        if spacetime is not None and self.metrics is None:\n            header.add(self.canvas.create_canvas())",
           "        if spacetime is not None:\n            header.add(self.canvas.create_canvas())", "D2"),
